@@ -425,6 +425,7 @@ func (server *SugarDB) getState() map[int]map[string]interface{} {
 			break
 		}
 	}
+	verifPoint("getstate.copy")
 	data := make(map[int]map[string]interface{})
 	for db, store := range server.store {
 		data[db] = make(map[string]interface{})
